@@ -754,16 +754,20 @@ Fixpoint pairwise_lt (l u : list Q) : bool :=
   | _, _ => true
   end.
 
-(* variables(i)->dist2(lower, upper) < 1.0e-12: walls that coincide *)
-Fixpoint pairwise_apart (l u : list Q) : bool :=
+(* variables(i)->dist2(lower, upper) < 1.0e-12 * width_i^2: walls that coincide, measured in units of the variable's
+   width (repair of the C03 slice; before it the threshold was the absolute 1.0e-12).  [ws]: the widths, 1 when the
+   list is shorter *)
+Fixpoint pairwise_apart (ws l u : list Q) : bool :=
   match l, u with
-  | a :: lr, b :: ur => negb (Qltb ((b - a) * (b - a)) (1 # 1000000000000)) && pairwise_apart lr ur
+  | a :: lr, b :: ur =>
+      let w := match ws with w :: _ => w | [] => 1 # 1 end in
+      negb (Qltb ((b - a) * (b - a)) ((1 # 1000000000000) * w * w)) && pairwise_apart (tl ws) lr ur
   | _, _ => true
   end.
 
 Record wallsx := mkWallsx { wx_lower : list Q; wx_upper : list Q; wx_lk : Q; wx_uk : Q }.
 
-Definition walls_validate (n : nat) (e : env) : errs * wallsx :=
+Definition walls_validate (ws : list Q) (n : nat) (e : env) : errs * wallsx :=
   let '(fk, p0) := ereal e "forceConstant" (1 # 1) in
   let x0 := flag_input (p0 || Qltb fk Q0) no_errs in                                   (* invalid force constant (the return value is dropped) *)
   (* both lists are pre-sized to n before they are read; an absent one is then cleared *)
@@ -777,7 +781,7 @@ Definition walls_validate (n : nat) (e : env) : errs * wallsx :=
     let x2 := flag_input (p1 || p2 || (Nat.eqb (List.length lw) 0 && egiven e "lowerWallConstant")
                           || (Nat.eqb (List.length uw) 0 && egiven e "upperWallConstant")) x1 in   (* check_keywords *)
     if negb (Nat.eqb (List.length lw) 0) && negb (Nat.eqb (List.length uw) 0) then
-      if negb (pairwise_lt lw uw) || negb (pairwise_apart lw uw) then (flag_input true x2, mkWallsx lw uw lk uk)
+      if negb (pairwise_lt lw uw) || negb (pairwise_apart ws lw uw) then (flag_input true x2, mkWallsx lw uw lk uk)
       else if Qeq_bool (lk * uk) Q0 then (flag_input true x2, mkWallsx lw uw lk uk)
       else (x2, mkWallsx lw uw lk uk)
     else (x2, mkWallsx lw uw lk uk).
@@ -810,7 +814,8 @@ Definition opesx_validate (kbt : Q) (bf_inf : bool) (explore : bool) (e : env) :
                   mkOpesx ba (if bf_inf then None else Some bfv) eps cut ct).
 
 (* ---- metadynamics: hillWeight, widths, well-tempered ------------------------------------------------- *)
-Record metax := mkMetax { mx_weight : Q; mx_sigmas : nat; mx_wt : bool; mx_biastemp : Q }.
+Record metax := mkMetax { mx_weight : Q; mx_sigmas : nat; mx_wt : bool; mx_biastemp : Q;
+                          mx_widths : list Q (* the gaussianSigmas in force; [] when hillWidth is used (width_i * hillWidth / 2 > 0) *) }.
 
 Definition metax_validate (n : nat) (e : env) : errs * metax :=
   let '(hw, p0) := ereal e "hillWeight" Q0 in
@@ -821,11 +826,13 @@ Definition metax_validate (n : nat) (e : env) : errs * metax :=
   let '(hwid, p1) := ereal e "hillWidth" Q0 in
   let x1 := flag_input (es || p1 || (negb (Nat.eqb (List.length sig) 0) && Qltb Q0 hwid)) x0 in   (* mutually exclusive *)
   let nsig := if Qltb Q0 hwid then n else List.length sig in
-  if negb (Nat.eqb nsig n) then (flag_input true x1, mkMetax hw nsig false Q0)              (* number of widths: return *)
+  let ws := if Qltb Q0 hwid then [] else sig in
+  if negb (Nat.eqb nsig n) then (flag_input true x1, mkMetax hw nsig false Q0 ws)           (* number of widths: return *)
+  else if negb (forallb (Qltb Q0) ws) then (flag_input true x1, mkMetax hw nsig false Q0 ws)   (* repaired: every width > 0 (the hills divide by its square): return *)
   else
     let wt := eflag e "wellTempered" false in
     let '(bt, p2) := ereal e "biasTemperature" (-1 # 1) in
-    (flag_input (p2 || (wt && Qeq_bool bt (-1 # 1))) x1, mkMetax hw nsig wt bt).
+    (flag_input (p2 || (wt && Qeq_bool bt (-1 # 1))) x1, mkMetax hw nsig wt bt ws).
 
 (* ---- ABF: shared ------------------------------------------------------------------------------------- *)
 Definition abfshared_validate (restart_out_freq : Z) (e : env) : errs * (Z * Z) :=
@@ -847,7 +854,7 @@ Definition alb_validate (n : nat) (e : env) : errs * (Z * nat) :=
   (flag_input (half <=? 1) x1, (half, List.length c)).
 
 (* ---- restraint with a changing force constant (harmonic) --------------------------------------------- *)
-Record kx := mkKx { kx_k : Q; kx_changing : bool; kx_nsteps : Z; kx_nstages : Z }.
+Record kx := mkKx { kx_k : Q; kx_changing : bool; kx_nsteps : Z; kx_nstages : Z; kx_exp : Q (* lambdaExponent: k(lambda) = k0 + (k1 - k0) lambda^exp *) }.
 
 Definition kmoving_validate (restart_out_freq : Z) (e : env) : errs * kx :=
   let '(k, p0) := ereal e "forceConstant" (1 # 1) in
@@ -855,19 +862,22 @@ Definition kmoving_validate (restart_out_freq : Z) (e : env) : errs * kx :=
   let dec := eflag e "decoupling" false in
   let tfk_given := egiven e "targetForceConstant" in
   let '(tfk, p1) := ereal e "targetForceConstant" Q0 in
-  if tfk_given && dec then (flag_input true x0, mkKx k true 0 0)
+  if tfk_given && dec then (flag_input true x0, mkKx k true 0 0 (1 # 1))
   else if negb (dec || tfk_given)
-       then (flag_input (egiven e "targetNumSteps" || egiven e "targetNumStages" || elist_given e "lambdaSchedule") x0, mkKx k false 0 0)
+       then (flag_input (egiven e "targetNumSteps" || egiven e "targetNumStages" || elist_given e "lambdaSchedule" || egiven e "lambdaExponent") x0,
+             mkKx k false 0 0 (1 # 1))                                                     (* check_keywords: not read in this case *)
   else
     let '(ns, p2) := eint TStep e "targetNumSteps" 0 in
-    if ns =? 0 then (flag_input true x0, mkKx k true ns 0)
+    if ns =? 0 then (flag_input true x0, mkKx k true ns 0 (1 # 1))
     else
       let '(ng, p3) := eint TInt e "targetNumStages" 0 in
       let '(sched, esch) := getV (elist e "lambdaSchedule") [] in
-      if elist_given e "lambdaSchedule" && (0 <? ng) then (flag_input true x0, mkKx k true ns ng)
+      if elist_given e "lambdaSchedule" && (0 <? ng) then (flag_input true x0, mkKx k true ns ng (1 # 1))
       else
         let ng' := if Nat.eqb (List.length sched) 0 then ng else Z.of_nat (List.length sched) - 1 in
-        (flag_input (p1 || p2 || p3 || esch) x0, mkKx k true ns ng').
+        let '(lx, p4) := ereal e "lambdaExponent" (1 # 1) in
+        (* repaired: a negative exponent is an error (lambda^exp is infinite at lambda = 0); below 1 it is only a warning *)
+        (flag_input (p1 || p2 || p3 || esch || p4 || Qltb lx Q0) x0, mkKx k true ns ng' lx).
 
 
 (* ================================================================================================ *)
@@ -1193,11 +1203,44 @@ Definition parse_config6 (v : ivariant) (restore : bool) (c : config6) (s : mods
 (* colvarmodule::reset(): objects, registries and counters go; the values of the module-level keywords stay *)
 Definition reset6 (s : modst) : modst := mkModst [] [] [] [] [] (q_traj s) (q_restart s) [] false (q_crash s).
 
-Fixpoint run_session6 (v : ivariant) (restore : bool) (cfgs : list (option config6)) (s : modst) : modst :=
-  match cfgs with
+(* script commands `cv bias <name> delete` and `cv colvar <name> delete`.  Deleting a bias releases its variables: one
+   that no other bias uses is switched off (by design: only the REJECTED bias of a configuration must leave them as
+   they were).  Deleting a variable first deletes the biases that use it, last added first, then the variable with
+   the atom groups it had named. *)
+Definition drop_unused (cs : list string) (bs : list (string * string * list string)) (act : list string) : list string :=
+  filter (fun c => negb (existsb (String.eqb c) cs) || existsb (uses_cv c) bs) act.
+
+Definition delete_bias6 (n : string) (s : modst) : modst :=
+  match find (fun b => String.eqb n (fst (fst b))) (q_biases s) with
+  | None => s
+  | Some b =>
+      let bs := filter (fun o => negb (String.eqb n (fst (fst o)))) (q_biases s) in
+      mkModst (q_cvs s) bs (q_reg s) (q_named s) (q_counters s) (q_traj s) (q_restart s) (drop_unused (snd b) bs (q_active s)) (q_err s) (q_crash s)
+  end.
+
+Definition delete_cv6 (c : string) (s : modst) : modst :=
+  if negb (existsb (String.eqb c) (q_cvs s)) then s
+  else
+    let users := map (fun b => fst (fst b)) (filter (uses_cv c) (q_biases s)) in
+    let s1 := fold_left (fun st n => delete_bias6 n st) (rev users) s in
+    mkModst (filter (fun x => negb (String.eqb c x)) (q_cvs s1)) (q_biases s1) (q_reg s1)
+            (filter (fun go => negb (String.eqb c (snd go))) (q_named s1)) (q_counters s1) (q_traj s1) (q_restart s1)
+            (filter (fun x => negb (String.eqb c x)) (q_active s1)) (q_err s1) (q_crash s1).
+
+Inductive op6 := OpCfg (c : config6) | OpReset | OpDelBias (n : string) | OpDelCv (n : string).
+
+Definition run_op6 (v : ivariant) (restore : bool) (o : op6) (s : modst) : modst :=
+  match o with
+  | OpCfg c => parse_config6 v restore c s
+  | OpReset => reset6 s
+  | OpDelBias n => delete_bias6 n s
+  | OpDelCv n => delete_cv6 n s
+  end.
+
+Fixpoint run_session6 (v : ivariant) (restore : bool) (ops : list op6) (s : modst) : modst :=
+  match ops with
   | [] => s
-  | None :: r => run_session6 v restore r (reset6 s)
-  | Some c :: r => run_session6 v restore r (parse_config6 v restore c s)
+  | o :: r => run_session6 v restore r (run_op6 v restore o s)
   end.
 
 (* well-formed state: no NULL in the registry, no crash so far, every named group is owned by a defined variable,
